@@ -66,6 +66,9 @@ def run(ctx):
     if meta:
         ctx.sample({"events": meta[len(meta) // 2][0]["events"], "expected": {k: meta[len(meta) // 2][0][k] for k in ("accepted", "errAt")},
                     "document": meta[len(meta) // 2][1]})
+    # ---- (2b) cluster sequences (spec/GkfClusters.tla): per-cluster verdicts, no influence between neighbours
+    cl = cluster_docs(ctx)
+    cov["cluster_documents"] = cl
     # ---- (3) mutation / truncation sweep of repository inputs
     mut = mutation_sweep(ctx)
     cov.update({"states": r.distinct, "transitions": r.generated, "traces_validated_against_impl": len(docs),
@@ -74,6 +77,46 @@ def run(ctx):
     ctx.assume("memory safety and termination are observed by ASan/UBSan and timeouts on specification-generated inputs (trusted observers)")
     ctx.assume("'every byte sequence' is sampled structurally: all event sequences up to the bound + deterministic mutations of repository inputs")
     return cov
+
+
+def cluster_docs(ctx, only=None):
+    consts = {"MaxClusters": 2 if ctx.quick else 3, "Keep": 1 if ctx.quick else 7, "Seed": ctx.seed}
+    cfg = os.path.join(vlib.SPEC, "_gkfcl_%s.cfg" % ctx.pid)
+    with open(cfg, "w") as f:
+        f.write("SPECIFICATION Spec\nCONSTANTS\n" + "".join("  %s = %s\n" % kv for kv in consts.items()) + "INVARIANT Emit\nCHECK_DEADLOCK FALSE\n")
+    r = vlib.tlc("GkfClusters", os.path.basename(cfg), timeout=1200)
+    os.remove(cfg)
+    if r.outcome != "ok":
+        raise vlib.ModelFailure("GkfClusters: %s\n%s" % (r.outcome, r.out[-2000:]))
+    docs = r.cases
+    vlib.build("asan", ["gama-local"])
+    jobs, meta = [], []
+    for d in docs:
+        text, ends = gkfdocs.cluster_doc(d["doc"])
+        jobs.append({"gkf": text, "kind": "asan", "want": ["xml"], "timeout": 60})
+        meta.append((d, text, ends))
+    runs = gl.run_many(ctx, jobs)
+    st = {"documents": len(docs), "refused_by_model": 0, "states": r.distinct}
+    for (d, text, ends), run in zip(meta, runs):
+        cls = gl.classify(run)
+        if cls in ("crash", "sanitizer", "hang"):
+            ctx.violation("clusters|" + cls, "cluster document makes gama-local %s (rc=%s)\n%s\n%s" % (cls, run.rc, text, run.out[-1200:]), replay={"gkf": text})
+            continue
+        got, line, msg = parser_outcome(run)
+        fb = d["firstbad"]
+        kinds = "+".join("%s/%d/%s" % (c["t"], c["n"], c["cov"]) for c in d["doc"])
+        if fb == 0:
+            if got != "accepted":
+                ctx.violation("clusters|valid-refused|" + d["doc"][-1]["t"], "every cluster is valid (%s) but gama-local refuses at line %s: %s\n%s" % (kinds, line, msg, text), replay={"gkf": text})
+        else:
+            st["refused_by_model"] += 1
+            bad = d["doc"][fb - 1]
+            if got != "rejected":
+                ctx.violation("clusters|invalid-accepted|%s|%s" % (bad["t"], bad["cov"]), "cluster %d (%s) is malformed but the document is accepted\n%s" % (fb, kinds, text), replay={"gkf": text})
+            elif not msg.strip() or line is None or not (ends.get(fb - 1, 9) < line <= ends[fb]):
+                ctx.violation("clusters|line|%s|%s" % (bad["t"], bad["cov"]), "cluster %d (%s) is malformed; refused at line %s (%r), the cluster spans lines %d..%d\n%s" % (
+                    fb, kinds, line, msg, ends.get(fb - 1, 9) + 1, ends[fb], text), replay={"gkf": text})
+    return st
 
 
 REPL = [b"", b"<", b">", b"&", b"\"", b"'", b"\x00", b"\xff", b"1e999", b"-", b"<point/>", b"</obs>", b"<!--", b"]]>", b"&#0;", b" id=\"\"", b"9" * 40]
